@@ -172,15 +172,15 @@ func init() {
 		},
 
 		// ---- sync ----
-		"(*sync.Mutex).Lock":       noop,
-		"(*sync.Mutex).Unlock":     noop,
-		"(*sync.Mutex).TryLock":    func(fr *frame, args []value) value { return true },
-		"(*sync.RWMutex).Lock":     noop,
-		"(*sync.RWMutex).Unlock":   noop,
-		"(*sync.RWMutex).RLock":    noop,
-		"(*sync.RWMutex).RUnlock":  noop,
-		"(*sync.WaitGroup).Add":    noop,
-		"(*sync.WaitGroup).Done":   noop,
+		"(*sync.Mutex).Lock":      noop,
+		"(*sync.Mutex).Unlock":    noop,
+		"(*sync.Mutex).TryLock":   func(fr *frame, args []value) value { return true },
+		"(*sync.RWMutex).Lock":    noop,
+		"(*sync.RWMutex).Unlock":  noop,
+		"(*sync.RWMutex).RLock":   noop,
+		"(*sync.RWMutex).RUnlock": noop,
+		"(*sync.WaitGroup).Add":   noop,
+		"(*sync.WaitGroup).Done":  noop,
 		// Wait: a no-op unless the harness opted in (sym.YieldOnWaitGroup): then the environment registered
 		// with sym.OnYield acts once (tag "wg"): it is expected to run the goroutines being waited for
 		"(*sync.WaitGroup).Wait": func(fr *frame, args []value) value {
@@ -190,10 +190,10 @@ func init() {
 			return nil
 		},
 		"sync.runtime_registerPoolCleanup": noop,
-		"runtime.SetFinalizer":     noop,
-		"runtime.KeepAlive":        noop,
-		"runtime.Gosched":          noop,
-		"runtime.GC":               noop,
+		"runtime.SetFinalizer":             noop,
+		"runtime.KeepAlive":                noop,
+		"runtime.Gosched":                  noop,
+		"runtime.GC":                       noop,
 
 		// ---- errors / fmt ----
 		"github.com/pkg/errors.New": func(fr *frame, args []value) value {
@@ -220,7 +220,7 @@ func init() {
 		"internal/bytealg.IndexByteString": func(fr *frame, args []value) value {
 			return indexByte(strBytes(args[0]), args[1])
 		},
-		"bytes.IndexByte": func(fr *frame, args []value) value { return indexByte(args[0].([]value), args[1]) },
+		"bytes.IndexByte":   func(fr *frame, args []value) value { return indexByte(args[0].([]value), args[1]) },
 		"strings.IndexByte": func(fr *frame, args []value) value { return indexByte(strBytes(args[0]), args[1]) },
 		"bytes.HasPrefix": func(fr *frame, args []value) value {
 			s, p := args[0].([]value), args[1].([]value)
